@@ -108,6 +108,8 @@ def plan(prop):
         for how in ('location', 'disjoint', 'any'):
             obs.append((prag, lambda ctx, how=how: po.ob_job_tag(ctx, how)))
         obs.append((prag, lambda ctx: po.ob_match_place(ctx)))
+        for n in ((2, 3) if Q else (2, 3, 4)):
+            obs.append((prag, lambda ctx, n=n: po.ob_place_tags_read(ctx, n)))
         obs.append((core, lambda ctx: co.ob_total_cost_fold(ctx, 16, rates)))
     if prop == 'C20':
         obs.append((core, lambda ctx: co.ob_simple_objectives(ctx)))
